@@ -232,8 +232,15 @@ def r1(ctx):
         ctx.bad('PolygonPixelRegion', 'vertex-string', f'vertices (1,4),(2,5),(3,6) at precision {prec} are written `{got}`, not '
                 f'`{want_v}`', gp[0].loc())
     # regular polygons are converted first
-    src = norm(ser.node)
-    if 'RegularPolygonPixelRegion' in src and 'to_polygon()' in src:
+    # (decided on the value handed to the per-region serialiser when the list holds a regular polygon)
+    seen_regs = []
+    rec_ = DictV([{'frame': Const('image'), 'region': Const('polygon(1,2,3,4,5,6)'), 'meta': DictV([{}])}])
+    evp = Evaluator(m, hooks={wfi.qualname: lambda e, a, k: (seen_regs.append(a[0]), rec_)[1]})
+    rpc = m.cls('RegularPolygonPixelRegion')
+    evp.run(ser, [Tup((evp.symbolic_instance(rpc, 'rp'),), 'list')], {})
+    converted = bool(seen_regs) and all((isinstance(x, Obj) and x.cls == 'PolygonPixelRegion') or 'to_polygon' in show(x, 400)
+                                        for x in seen_regs)
+    if converted:
         ctx.ok('RegularPolygonPixelRegion', 'serialised through to_polygon()')
     else:
         ctx.bad('RegularPolygonPixelRegion', 'not-converted', 'regular polygons are not converted to polygons before '
